@@ -175,7 +175,7 @@ class StmtMixin:
             n = L.l_len(t, base.z)
             self.nonneg_or_unsupported(idx.z, 'index')
             self.need(idx.z < n, 'IndexError')
-            new = V(t, L.l_set_at(t, base.z, idx.z, coerce(val, t.elem).z), lval=base.lval)
+            new = self.opaque_list(V(t, L.l_set_at(t, base.z, idx.z, coerce(val, t.elem).z), lval=base.lval))
             self.store_back(base_expr, base, new)
             return
         if is_py(base, 'kwdict') and idx.py and idx.py[0] == 'strlit':
